@@ -435,25 +435,47 @@ def check_normalisers(ctx):
     else:
         ctx.violation(rule, fr, 'condition kinds handled: %s' % sorted(kinds), 'expected callable, Field, expression and a rejecting path', fr.node.lineno, clause='g')
     # Sequence._compile / Optional._compile route count / until / when through the normalisers
-    sq = repo.cls('Sequence').methods.get('_compile')
-    src = unparse(sq.node)
-    ok = 'self.get_how_many_elements = normalize_count_condition_into_a_callable(count)' in src and 'self.until_condition = normalize_raw_condition_into_a_callable(until)' in src \
-        and 'normalize_raw_condition_into_a_callable(when)' in src and 'count, until, when = self.tmp' in src
-    if ok:
-        ctx.holds(rule, sq, 'Sequence._compile: count -> count normaliser, until/when -> condition normaliser', 'declared roles', sq.node.lineno, clause='g')
-    else:
-        ctx.violation(rule, sq, 'Sequence._compile', 'count / until / when are not routed to their normalisers', sq.node.lineno, clause='g')
-    ctor = repo.cls('Sequence').methods.get('__init__')
+    sqc = repo.cls('Sequence')
+    sq = sqc.methods.get('_compile')
+    ctor = sqc.methods.get('__init__')
     tm = [n for n in ast.walk(ctor.node) if isinstance(n, ast.Assign) and canon(n.targets[0]) == 'self.tmp']
-    if tm and canon(tm[0].value) == '(count, until, when,)':
-        ctx.holds(rule, ctor, 'self.tmp = (count, until, when)', 'same order as unpacked in _compile', ctor.node.lineno, clause='g')
+    order = [canon(x) for x in tm[0].value.elts] if tm and isinstance(tm[0].value, ast.Tuple) else None
+    if order is None or sorted(order) != ['count', 'until', 'when']:
+        ctx.violation(rule, ctor, 'self.tmp = %s' % (canon(tm[0].value) if tm else None), 'count / until / when are not kept for _compile', ctor.node.lineno, clause='g')
     else:
-        ctx.violation(rule, ctor, 'self.tmp = %s' % (canon(tm[0].value) if tm else None), 'count / until / when are stored in a different order than _compile unpacks them', ctor.node.lineno, clause='g')
-    op = repo.cls('Optional').methods.get('_compile')
-    if 'self.when = normalize_raw_condition_into_a_callable(when)' in unparse(op.node):
-        ctx.holds(rule, op, 'Optional._compile: when -> condition normaliser', 'declared role', op.node.lineno, clause='g')
+        idx = {nm: 'self.tmp[%d]' % i for i, nm in enumerate(order)}
+        w2 = repo.walker(max_paths=ctx.max_paths)
+        want = {'get_how_many_elements': 'normalize_count_condition_into_a_callable(%s)' % idx['count'],
+                'until_condition': 'normalize_raw_condition_into_a_callable(%s)' % idx['until'],
+                'when': 'normalize_raw_condition_into_a_callable(%s)' % idx['when']}
+        got = {k: set() for k in want}
+        for p in w2.paths(sq.node, cls=sqc):
+            if p.raises():
+                continue
+            for e in p.effects:
+                if e.kind == 'store_attr' and canon(e.obj) == 'self' and e.name in want and not (isinstance(e.value, ast.Constant) and e.value.value is None):
+                    v = e.value
+                    if isinstance(v, ast.IfExp):
+                        v = v.orelse if (isinstance(v.body, ast.Constant) and v.body.value is None) else v.body
+                    got[e.name].add(canon(v))
+        bad = {k: sorted(v) for k, v in got.items() if v != {want[k]}}
+        if not bad:
+            ctx.holds(rule, sq, 'Sequence._compile: count -> count normaliser, until / when -> condition normaliser (slots %s)' % order, 'declared roles, same order as stored by the constructor', sq.node.lineno, clause='g')
+        else:
+            ctx.violation(rule, sq, 'Sequence._compile: %s' % bad, 'count / until / when are not routed to their own normalisers (expected %s)' % {k: want[k] for k in bad}, sq.node.lineno, clause='g')
+    opc = repo.cls('Optional')
+    op = opc.methods.get('_compile')
+    okw = False
+    for p in repo.walker().paths(op.node, cls=opc):
+        for e in p.effects:
+            if e.kind == 'store_attr' and canon(e.obj) == 'self' and e.name == 'when' and canon(e.value) == 'normalize_raw_condition_into_a_callable(self.tmp)':
+                okw = True
+    octor = opc.methods.get('__init__')
+    stored = any(isinstance(n, ast.Assign) and canon(n.targets[0]) == 'self.tmp' and canon(n.value) == 'when' for n in ast.walk(octor.node))
+    if okw and stored:
+        ctx.holds(rule, op, 'Optional: self.tmp = when; self.when = condition normaliser(self.tmp)', 'declared role', op.node.lineno, clause='g')
     else:
-        ctx.violation(rule, op, 'Optional._compile', 'the when condition is not normalised', op.node.lineno, clause='g')
+        ctx.violation(rule, op, 'Optional._compile', 'the when condition is not normalised from the value given to the constructor', op.node.lineno, clause='g')
 
 
 def check_late_binding(ctx):
